@@ -30,6 +30,7 @@ pub unsafe extern "C" fn vq_free(p: *mut c_char) {
 /// text comes as JSON string (so that NUL characters survive the C boundary)
 #[no_mangle]
 pub unsafe extern "C" fn vq_tokenize(text_json: *const c_char) -> *mut c_char {
+    let r = std::panic::catch_unwind(std::panic::AssertUnwindSafe(|| -> *mut c_char {
     let data: String = serde_json::from_str(arg(text_json)).unwrap();
     let stream = Tokenizer::new(&data[..]).validated_values().with_eof();
     let mut tokens = vec![];
@@ -41,6 +42,8 @@ pub unsafe extern "C" fn vq_tokenize(text_json: *const c_char) -> *mut c_char {
         }
     }
     ret(json!({"out": tokens, "errors": errors}))
+    }));
+    match r { Ok(p) => p, Err(e) => { let msg = if let Some(s) = e.downcast_ref::<&str>() { s.to_string() } else if let Some(s) = e.downcast_ref::<String>() { s.clone() } else { "unknown panic".to_string() }; ret(json!({"panic": msg})) } }
 }
 
 #[no_mangle]
@@ -81,6 +84,7 @@ fn cst_to_json(root: &CSTNode) -> J {
 
 #[no_mangle]
 pub unsafe extern "C" fn vq_parse(start_name: *const c_char, tokens_json: *const c_char) -> *mut c_char {
+    let r = std::panic::catch_unwind(std::panic::AssertUnwindSafe(|| -> *mut c_char {
     let Some(spec) = SPEC.get() else { return ret(json!({"fatal": "grammar spec not loaded"})); };
     let tokens: Vec<Token<'static>> = match serde_json::from_str(arg(tokens_json)) {
         Ok(t) => t, Err(e) => return ret(json!({"fatal": format!("bad tokens: {e}")})),
@@ -92,6 +96,8 @@ pub unsafe extern "C" fn vq_parse(start_name: *const c_char, tokens_json: *const
     let (cst, errors) = parser::parse(&buf, &ctx);
     let out = cst.as_ref().map(cst_to_json);
     ret(json!({"out": out, "errors": errors.iter().map(err_tuple).collect::<Vec<_>>()}))
+    }));
+    match r { Ok(p) => p, Err(e) => { let msg = if let Some(s) = e.downcast_ref::<&str>() { s.to_string() } else if let Some(s) = e.downcast_ref::<String>() { s.clone() } else { "unknown panic".to_string() }; ret(json!({"panic": msg})) } }
 }
 
 #[no_mangle]
@@ -109,6 +115,7 @@ mod phf_set_alias { pub type Set = phf::Set<&'static str>; }
 /// sources: JSON list of strings
 #[no_mangle]
 pub unsafe extern "C" fn vq_migration_id(parent_json: *const c_char, sources_json: *const c_char) -> *mut c_char {
+    let r = std::panic::catch_unwind(std::panic::AssertUnwindSafe(|| -> *mut c_char {
     let parent: String = serde_json::from_str(arg(parent_json)).unwrap();
     let sources: Vec<String> = serde_json::from_str(arg(sources_json)).unwrap();
     let mut h = Hasher::start_migration(&parent);
@@ -118,11 +125,14 @@ pub unsafe extern "C" fn vq_migration_id(parent_json: *const c_char, sources_jso
         }
     }
     ret(json!({"id": h.make_migration_id()}))
+    }));
+    match r { Ok(p) => p, Err(e) => { let msg = if let Some(s) = e.downcast_ref::<&str>() { s.to_string() } else if let Some(s) = e.downcast_ref::<String>() { s.clone() } else { "unknown panic".to_string() }; ret(json!({"panic": msg})) } }
 }
 
 /// data: JSON string (the source text); offsets: JSON list (sorted by caller)
 #[no_mangle]
 pub unsafe extern "C" fn vq_source_points(data_json: *const c_char, offsets_json: *const c_char) -> *mut c_char {
+    let r = std::panic::catch_unwind(std::panic::AssertUnwindSafe(|| -> *mut c_char {
     let data: String = serde_json::from_str(arg(data_json)).unwrap();
     let mut offsets: Vec<usize> = serde_json::from_str(arg(offsets_json)).unwrap();
     offsets.sort();
@@ -130,4 +140,6 @@ pub unsafe extern "C" fn vq_source_points(data_json: *const c_char, offsets_json
         Ok(v) => ret(json!(v.iter().map(|p| json!([p.line, p.column, p.utf16column, p.offset, p.char_offset])).collect::<Vec<_>>())),
         Err(e) => ret(json!({"error": e.to_string()})),
     }
+    }));
+    match r { Ok(p) => p, Err(e) => { let msg = if let Some(s) = e.downcast_ref::<&str>() { s.to_string() } else if let Some(s) = e.downcast_ref::<String>() { s.clone() } else { "unknown panic".to_string() }; ret(json!({"panic": msg})) } }
 }
